@@ -1,7 +1,7 @@
 (* C18 - Node k-mer iteration obeys the iterator contract.  Statements only. *)
 From Coq Require Import NArith List Bool Arith.
 From DBG Require Import Spec.Dna Packed.KmerModel Packed.DnaStringModel Packed.SliceModel Algo.Iter Algo.NodeIter
-  Proofs.KmerLanes Proofs.NodeIterProofs.
+  Proofs.KmerLanes Proofs.NodeIterProofs Proofs.NodeIterAll Spec.GraphIndex Spec.Unitig Spec.CompressSpec Algo.Compress.
 Import ListNotations.
 Open Scope N_scope.
 
@@ -34,6 +34,23 @@ Theorem C18_skip_clamp : forall (A : Type) (B : nat) calls (l : list A), (length
   spec_run l (map (clamp_call B) calls) = spec_run l calls.
 Proof. exact @spec_run_clamp. Qed.
 
+(* ---- iterating ALL nodes -------------------------------------------------------------------------------------------
+   Per node: stepping with next() exactly `count` times yields the node's k-mers in order (and None ever after). *)
+Theorem C18_all_next : forall (A : Type) (l : list A) n,
+  spec_run l (repeat CNext (length l) ++ repeat CNext n) = map Some l ++ repeat None n.
+Proof. exact @spec_run_after_all. Qed.
+(* Over the whole graph (with C01): for every table meeting C01's hypotheses, iterating the nodes compress_kmers returns, in
+   order, each from its first to its last k-mer, visits - up to the strand representative when unstranded - every key of the
+   table exactly once and nothing else: the visited list is a permutation of the keys and has no repetition.  Together
+   with C19_mphf_perfect (a minimal perfect hash built from pairwise distinct keys gives them pairwise distinct slots) an
+   index built from this iteration gives every graph k-mer its own slot. *)
+Theorem C18_all_nodes_once : forall D reduce join K stranded, (1 <= K)%nat -> forall T : Compress.table D,
+  tbl_ok D K stranded T -> exts_sym D stranded T ->
+  exists nodes, compress_kmers D reduce join stranded T = Some nodes /\
+    Permutation.Permutation (map (canon_k stranded) (iter_all_nodes D K nodes)) (keys D T) /\
+    NoDup (map (canon_k stranded) (iter_all_nodes D K nodes)).
+Proof. exact all_nodes_once. Qed.
+
 (* non-vacuity: K=4 over ACGTACG: nth(5) is past the 4 k-mers -> None, then None again *)
 Example C18_nonvacuous :
   spec_run (kmers 4 [0; 1; 2; 3; 0; 1; 2]) [CNext; CNth 1; CNth 5; CNext]
@@ -41,4 +58,6 @@ Example C18_nonvacuous :
 Proof. vm_compute. reflexivity. Qed.
 
 Print Assumptions C18_iter_refines.
+Print Assumptions C18_all_next.
+Print Assumptions C18_all_nodes_once.
 Print Assumptions C18_skip_clamp.
